@@ -140,11 +140,16 @@ class Translator:
         src = open(path, encoding="utf-8").read()
         mod = ast.parse(src)
         self.consts = dict(consts or {})
+        self.tables = {}
         self.fn = None
         for node in mod.body:
             if isinstance(node, ast.Assign) and len(node.targets) == 1 and isinstance(node.targets[0], ast.Name) \
                     and isinstance(node.value, ast.Constant) and isinstance(node.value.value, int):
                 self.consts[node.targets[0].id] = node.value.value
+            if isinstance(node, ast.Assign) and len(node.targets) == 1 and isinstance(node.targets[0], ast.Name) \
+                    and isinstance(node.value, (ast.Tuple, ast.List)) and node.value.elts \
+                    and all(isinstance(e, ast.Constant) and type(e.value) is int for e in node.value.elts):
+                self.tables[node.targets[0].id] = [e.value for e in node.value.elts]      # module-level lookup table of ints
             if isinstance(node, ast.FunctionDef) and node.name == funcname:
                 self.fn = node
         if self.fn is None:
@@ -228,6 +233,19 @@ class Translator:
             raise Unsupported("call %s" % name)
         if isinstance(node, ast.Tuple):
             return tuple(self.expr(e, env) for e in node.elts)
+        if isinstance(node, ast.Subscript) and isinstance(node.value, ast.Name) and node.value.id in self.tables \
+                and node.value.id not in env and not isinstance(node.slice, ast.Slice):
+            # constant table indexed by a term: an if-then-else chain over the valid indices (Python's negative indices
+            # included); an index outside -n..n-1 is an IndexError, tracked with the other run-time-error obligations
+            tab = self.tables[node.value.id]
+            n = len(tab)
+            idx = self.int_(self.expr(node.slice, env))
+            oob = z3.Or(be.lt(idx, be.const(-n)), be.le(be.const(n), idx))
+            self.out.divzero = z3.Or(self.out.divzero, z3.And(self.live, oob))
+            term = be.const(tab[0])
+            for k in range(-n, n):
+                term = z3.If(be.eq(idx, be.const(k)), be.const(tab[k]), term)
+            return term
         raise Unsupported("expression %s" % type(node).__name__)
 
     def int_(self, v):
